@@ -381,7 +381,7 @@ CHECKS = {
                        " Sum, Average, Min, Max, Clamp and Count are run over every numeric element type (int8..uint64, float32/64, values at the type's limits) against exact rational arithmetic."
                        " Dematerialize over arbitrary notification streams (in-band and out-of-band endings, Take upstream); for every operator that delivers slices or maps, a consumer that clears whatever it receives must be delivered the same sequence as a passive one."
                        " Every catalogue row is also fed a stream that ends with Error(nil) (the library accepts it): same values and same kind of ending as with a non-nil error."
-                       " Round / Abs / Floor / Ceil / Trunc against the math package bit for bit; FloorWithPrecision / CeilWithPrecision(places in -1000..1000) against a validity predicate in exact rational arithmetic (the multiple of 10^-places next to the value - or to a neighbour within two ulps, a float64 standing for the decimal the user wrote -, +-Inf where the ideal result leaves the float64 range). Memory ownership of delivered containers: a consumer that overwrites the spare capacity of every slice it was handed must not change anything delivered later (an operator may not keep writing into memory it handed out). Every catalogue row is also fed items whose own context is already cancelled, or is cancelled as soon as the emission returned: same values and ending as with live item contexts (only the subscription context stops a pipeline)."),
+                       " Round / Abs / Floor / Ceil / Trunc against the math package bit for bit; FloorWithPrecision / CeilWithPrecision(places in -1000..1000) against a validity predicate in exact rational arithmetic (the multiple of 10^-places next to the value - or to a neighbour within two ulps, a float64 standing for the decimal the user wrote -, +-Inf where the ideal result leaves the float64 range). Memory ownership of delivered containers: a consumer that overwrites the spare capacity of every slice it was handed must not change anything delivered later (an operator may not keep writing into memory it handed out). Every catalogue row is also fed items whose own context is already cancelled, or is cancelled as soon as the emission returned: same values and ending as with live item contexts (only the subscription context stops a pipeline). Subscribed with a subscription context that is already cancelled, every row delivers a prefix of what it delivers otherwise and, if the source ended, an ending (the same one or the context's error). Generic operators instantiated with an interface element type over values of mixed dynamic types (nil, int, string, struct) deliver what the int instantiation delivers (38 operators x 8 scripts). Count parameters at the top of their range (Take/Skip/ElementAtOrDefault(MaxInt64), Range next to MaxInt64/MinInt64)."),
         "level_note": ("Trusts the hand-written reference models (harness/model) and the documentation reading recorded in DESIGN.md appendix A. "
                        "Time-driven, hand-off and multi-source rows are judged by C05/C08/C16/C17, float rounding helpers by validity predicates only."),
     },
